@@ -16,7 +16,11 @@ CHECKS = {
              "detailed balance w.r.t. V_i exp(-E_i/RT) in grid order (1e-9 relative), off-diagonal pattern = saved adjacency, files = getters of "
              "that name; a postcondition on DecompositionTool.get_decomposition requires real, descending eigenvalues that each match a dense "
              "numpy eigenvalue, and for settings targeting the top of the spectrum a zero largest eigenvalue with left eigenvector proportional to "
-             "V exp(-E/RT) (judged when the spectral gap is resolved at the solver tolerance).",
+             "V exp(-E/RT) (judged when the spectral gap is resolved at the solver tolerance). The returned eigenvalues must also be the ones "
+             "the selection rule (LR/SR/LM/SM, on 1/(lambda-sigma) with a shift) picks from the dense spectrum; the reference is the matrix "
+             "the tool was constructed with, which must be unchanged after every call; every disagreement is repeated twice on fresh tools "
+             "before it counts (ARPACK starts from a random vector). 'SM' without a shift misses the eigenvalue zero: known finding F19 "
+             "(KNOWN-FINDING line, exit 0). Twin pipelines in one folder, a failed first request and flat landscapes are part of the workload.",
         design_ref="5/C14"),
     "C10": dict(
         technique="runtime monitors (postconditions with reference snapshots on Pseudotrajectory.__init__/get_pt_as_universe, PtWriter.__init__/write_full_pt) against an own quaternion->matrix and rigid-placement formula",
@@ -45,7 +49,7 @@ CHECKS = {
              "harness' own point set (directions x radii + extra shell): volumes by cone sums, faces by Newell's formula on the ridge polygons, "
              "distances |p_i-p_j|, pattern equal to the adjacency, symmetry, strict positivity. In every run sampled faces are recomputed by "
              "clipping the bisector plane with all other half-spaces (no qhull). Grids whose direction set does not surround the origin have "
-             "unbounded cells: known finding F10 (KNOWN-FINDING line, exit 0), attributed only when every discrepancy involves an open cell.",
+             "unbounded cells: known finding F10 (KNOWN-FINDING line, exit 0), attributed only to non-positive values reported for unbounded cells and faces; a bounded face between two open cells is judged. Disagreements with the qhull oracle are arbitrated by the clipping oracle; tolerance follows the measured conditioning; order_points itself is monitored; near-twin grids, flag spellings and hostile process state (numpy print options) are part of the workload.",
         design_ref="5/C06"),
     "C04": dict(
         technique="runtime monitors (outcome monitors on the default folded getters of every 4-D grid object) against a polar-duality face-area oracle on the double cover (LP interior point + own 2-D hull), MC self-test of the oracle",
